@@ -209,7 +209,7 @@ static void uncanonPS(ParticleSet& b, int variant) {
     if (variant & 2) {
         // (never every entry of the set: F * 0 = 0 would make the references `fx` and `copy` coincide)
         if (b.components > 1 || b.dim > 1) b.state(0, 0) = -0.0;
-        if (b.dim > 1) b.state(b.components - 1, b.dim - 1) = -4.9406564584124654e-324;
+        if (b.dim > 1 && b.components > 1) b.state(b.components - 1, b.dim - 1) = -4.9406564584124654e-324;
         if (b.components > 2) b.state(1, 0) = 2.2250738585072014e-308 / 8;
     }
 }
